@@ -8,7 +8,7 @@
 (*     NONCONF <id> <group> {failed checks}                                *)
 (* and continues.                                                          *)
 (***************************************************************************)
-EXTENDS Api, Json, IOUtils
+EXTENDS LouvainRules, Json, IOUtils
 
 Rec == ndJsonDeserialize(IOEnv.TRACE)
 
@@ -87,7 +87,8 @@ Consume(e) ==
          [] e.op.suite = "partitions" -> Report(e, "partitions", PartitionChecks(g, e.a))
          [] e.op.suite = "eigen" -> (g.specs.multi \/ Report(e, "eigen", EigenChecks(g, e.a)))   \* C18 speaks of single-edge graphs
          [] e.op.suite = "api" -> Report(e, "api", ApiChecks(g, e.a))
-         [] e.op.suite = "louvain" -> Report(e, "louvain", LouvainChecks(g, e.a))
+         [] e.op.suite = "louvain" -> /\ Report(e, "louvain", LouvainChecks(g, e.a))
+                                      /\ Report(e, "louvain_mech", MechChecks(g, e.a))
          [] OTHER -> PrintT("NONCONF " \o ToString(e.id) \o " unknown_suite {}")
 
 Init == l = 1
